@@ -524,3 +524,165 @@ func genJwk(jwk *pkg) {
 	fmt.Fprintf(&b, "Definition validate_error_sequence : list string := %s.\n", coqStrList(seq))
 	emit("Jwk.v", b.String())
 }
+
+// ---------------------------------------------------------------- Frame (C19)
+
+// rootIdent: the identifier at the root of an lvalue expression (x, x.f, x[i], *x, x.f[i].g ...)
+func rootIdent(e ast.Expr) *ast.Ident {
+	switch t := e.(type) {
+	case *ast.Ident:
+		return t
+	case *ast.SelectorExpr:
+		return rootIdent(t.X)
+	case *ast.IndexExpr:
+		return rootIdent(t.X)
+	case *ast.StarExpr:
+		return rootIdent(t.X)
+	case *ast.ParenExpr:
+		return rootIdent(t.X)
+	}
+	return nil
+}
+
+func genFrame(pkgs map[string]*pkg) {
+	var b strings.Builder
+	b.WriteString("(* C19: package-level variables and the places that write to them or through a method receiver *)\n")
+	var globalsRows, globalWrites, recvWrites []string
+	var recvCalls [][3]string
+	writers := map[string]bool{}
+	names := []string{}
+	for n := range pkgs {
+		names = append(names, n)
+	}
+	sortStrings(names)
+	for _, pn := range names {
+		p := pkgs[pn]
+		globals := map[string]bool{}
+		files := []string{}
+		for n := range p.files {
+			files = append(files, n)
+		}
+		sortStrings(files)
+		for _, fn := range files {
+			for _, d := range p.files[fn].Decls {
+				if gd, ok := d.(*ast.GenDecl); ok && gd.Tok == token.VAR {
+					for _, s := range gd.Specs {
+						for _, n := range s.(*ast.ValueSpec).Names {
+							if n.Name != "_" {
+								globals[n.Name] = true
+								globalsRows = append(globalsRows, fmt.Sprintf("(%s, %s)", coqStr(pn), coqStr(n.Name)))
+							}
+						}
+					}
+				}
+			}
+		}
+		for _, fn := range files {
+			for _, d := range p.files[fn].Decls {
+				fd, ok := d.(*ast.FuncDecl)
+				if !ok || fd.Body == nil {
+					continue
+				}
+				recvName, recvType := "", ""
+				if fd.Recv != nil && len(fd.Recv.List) > 0 {
+					recvType = typeName(fd.Recv.List[0].Type)
+					if len(fd.Recv.List[0].Names) > 0 {
+						recvName = fd.Recv.List[0].Names[0].Name
+					}
+				}
+				fname := fd.Name.Name
+				if recvType != "" {
+					fname = recvType + "." + fname
+				}
+				// locals that shadow globals: parameters and := definitions (coarse: any local definition of the name)
+				shadow := map[string]bool{}
+				ast.Inspect(fd, func(n ast.Node) bool {
+					switch t := n.(type) {
+					case *ast.AssignStmt:
+						if t.Tok == token.DEFINE {
+							for _, l := range t.Lhs {
+								if id, ok := l.(*ast.Ident); ok {
+									shadow[id.Name] = true
+								}
+							}
+						}
+					case *ast.Field:
+						for _, nm := range t.Names {
+							shadow[nm.Name] = true
+						}
+					case *ast.RangeStmt:
+						if t.Tok == token.DEFINE {
+							if id, ok := t.Key.(*ast.Ident); ok {
+								shadow[id.Name] = true
+							}
+							if id, ok := t.Value.(*ast.Ident); ok {
+								shadow[id.Name] = true
+							}
+						}
+					}
+					return true
+				})
+				note := func(lhs ast.Expr, how string) {
+					id := rootIdent(lhs)
+					if id == nil {
+						return
+					}
+					if globals[id.Name] && !shadow[id.Name] {
+						globalWrites = append(globalWrites, fmt.Sprintf("(%s, %s, %s)", coqStr(pn), coqStr(fname), coqStr(id.Name)))
+					}
+					if recvName != "" && id.Name == recvName {
+						if _, plain := lhs.(*ast.Ident); !plain { // writing through the receiver, not re-binding the local name
+							recvWrites = append(recvWrites, fmt.Sprintf("(%s, %s, %s)", coqStr(pn), coqStr(fname), coqStr(how)))
+							writers[pn+"\x00"+fname] = true
+						}
+					}
+				}
+				ast.Inspect(fd.Body, func(n ast.Node) bool {
+					if ce, ok := n.(*ast.CallExpr); ok && recvName != "" {
+						if se, ok := ce.Fun.(*ast.SelectorExpr); ok {
+							if id, ok := se.X.(*ast.Ident); ok && id.Name == recvName {
+								recvCalls = append(recvCalls, [3]string{pn, fname, recvType + "." + se.Sel.Name})
+							}
+						}
+					}
+					switch t := n.(type) {
+					case *ast.AssignStmt:
+						if t.Tok != token.DEFINE {
+							for _, l := range t.Lhs {
+								note(l, "assign")
+							}
+						}
+					case *ast.IncDecStmt:
+						note(t.X, "incdec")
+					case *ast.CallExpr:
+						if id, ok := t.Fun.(*ast.Ident); ok && (id.Name == "delete" || id.Name == "clear") && len(t.Args) > 0 {
+							note(t.Args[0], id.Name)
+						}
+					case *ast.UnaryExpr:
+						if t.Op == token.AND { // address of a global escapes
+							if id := rootIdent(t.X); id != nil && globals[id.Name] && !shadow[id.Name] {
+								globalWrites = append(globalWrites, fmt.Sprintf("(%s, %s, %s)", coqStr(pn), coqStr(fname), coqStr("&"+id.Name)))
+							}
+						}
+					}
+					return true
+				})
+			}
+		}
+	}
+	// methods that call a writing method on their own receiver write too (to a fixpoint)
+	for changed := true; changed; {
+		changed = false
+		for _, c := range recvCalls {
+			if writers[c[0]+"\x00"+c[2]] && !writers[c[0]+"\x00"+c[1]] {
+				writers[c[0]+"\x00"+c[1]] = true
+				recvWrites = append(recvWrites, fmt.Sprintf("(%s, %s, %s)", coqStr(c[0]), coqStr(c[1]), coqStr("calls "+c[2])))
+				changed = true
+			}
+		}
+	}
+	fmt.Fprintf(&b, "Definition package_globals : list (string * string) := %s.\n", coqList(globalsRows))
+	fmt.Fprintf(&b, "Definition global_writes : list (string * string * string) := %s.\n", coqList(globalWrites))
+	fmt.Fprintf(&b, "Definition receiver_writes : list (string * string * string) := %s.\n", coqList(recvWrites))
+	emit("Frame.v", b.String())
+}
